@@ -810,7 +810,7 @@ def create_branch_model(id_, tree_id, taxa_count, arg, rate_init=None):
         }
     elif arg.clock == "ucln":
         rate = Parameter.json_factory(
-            f"{id_}.rates", **{"tensor": 0.001, "full": [2 * taxa_count - 2]}
+            f"{id_}.rates", **{"tensor": rate[0], "full": [2 * taxa_count - 2]}
         )
         rate[CONSTRAINT.LOWER.value] = 0.0
         return {
